@@ -124,7 +124,7 @@ pub struct Outgoing {
 }
 
 struct Mailbox {
-    q: VecDeque<(Vec<u8>, SocketAddr)>,
+    q: VecDeque<(Vec<u8>, SocketAddr, u64, bool)>,
     wakers: Vec<Waker>,
     kind: EpKind,
     recv_errs: u32,
@@ -473,7 +473,7 @@ impl NetInner {
                         self.bump("delivered_real");
                     }
                     if let Some(m) = self.mailboxes.get_mut(&f.dst) {
-                        m.q.push_back((f.bytes, f.src));
+                        m.q.push_back((f.bytes, f.src, f.seq, f.corrupted));
                         for w in m.wakers.drain(..) {
                             w.wake();
                         }
@@ -774,12 +774,15 @@ impl btdht::SocketTrait for SimSocket {
                 n.bump("fault_recv_err");
                 return Poll::Ready(Err(io::Error::from_raw_os_error(104)));
             }
-            if let Some((data, from)) = m.q.pop_front() {
+            if let Some((data, from, seq, corrupted)) = m.q.pop_front() {
                 let k = data.len().min(buf.len());
                 buf[..k].copy_from_slice(&data[..k]);
                 if data.len() > buf.len() {
                     n.bump("rx_truncated");
                 }
+                let t = n.now();
+                let dst = self.addr;
+                n.push(Ev::Recv { t, seq, src: from, dst, bytes: data[..k].to_vec(), corrupted });
                 Poll::Ready(Ok((k, from)))
             } else {
                 m.wakers.clear();
@@ -820,8 +823,8 @@ impl ProbeSocket {
             {
                 let mut n = self.net.lock();
                 if let Some(m) = n.mailboxes.get_mut(&self.addr) {
-                    if let Some(pos) = m.q.iter().position(|(d, f)| pred(d, f)) {
-                        return Poll::Ready(m.q.remove(pos));
+                    if let Some(pos) = m.q.iter().position(|(d, f, _, _)| pred(d, f)) {
+                        return Poll::Ready(m.q.remove(pos).map(|(d, f, _, _)| (d, f)));
                     }
                     // several probe tasks may share one mailbox: all of them are woken on arrival
                     if !m.wakers.iter().any(|w| w.will_wake(cx.waker())) {
@@ -841,7 +844,7 @@ impl ProbeSocket {
         let mut n = self.net.lock();
         n.mailboxes
             .get_mut(&self.addr)
-            .map(|m| m.q.drain(..).collect())
+            .map(|m| m.q.drain(..).map(|(d, f, _, _)| (d, f)).collect())
             .unwrap_or_default()
     }
 }
